@@ -74,7 +74,7 @@ type c13Built struct {
 
 func c13BuildGen(r *verifh.Rng) []verifh.Section {
 	var secs []verifh.Section
-	nsec := verifh.Scale(60, 500)
+	nsec := verifh.Scale(40, 300)
 	for i := 0; i < nsec; i++ {
 		nk := r.Range(1, 5)
 		nv := r.Range(1, 4)
